@@ -27,5 +27,21 @@ CHECKS["C01"] = dict(
     ],
 )
 
+CHECKS["C02"] = dict(
+    level="exploration",
+    technique="end-to-end stateful property testing (rapid): generated multi-client request histories against an in-process broker, "
+              "paho-decoded client side, per-connection acknowledged-filter model + reference matcher as oracle",
+    level_text="Histories of <=40 connect/subscribe/unsubscribe/publish/link/reconnect requests from 1-4 clients (valid and refused keys, malformed "
+               "topics, me=0, QoS 0/1, link shortcuts with auto-subscribe) run through the real accept path; after every request every client's "
+               "received packets are compared with the model (exact recipient set, one copy, topic without key, payload unchanged, error reply with "
+               "request id and unchanged subscription count for refused requests, empty index after all clients closed).",
+    level_note="Trusted: paho packets codec on the client side, net.Pipe transport, protocol barriers (PUBACK/PINGRESP/close signal), reference matcher. "
+               "Storage and cluster disabled/quiescent; emitter matcher mode only.",
+    rule="rapid-generated histories; non-trivial = history in which a publish is delivered to a connection holding >=2 filters after >=1 effective "
+         "unsubscribe/disconnect; distinct = distinct case value.",
+    assumptions=["a barrier not answered within 30 s is reported as a hang (violation)"],
+    legs=[dict(name="sessions", test="^TestSessions$", quick=dict(n=400, procs=4, timeout=300), thorough=dict(n=40000, procs=14, timeout=2400))],
+)
+
 for _k in CHECKS:
     NOT_APPLICABLE.pop(_k, None)
